@@ -128,8 +128,10 @@ def _leaf_grid(pid):
     def g(tier, seed):
         cnt = []
         fails = rt.rt_leaf_grid(pid, count=cnt)
+        fails += rt.rt_spline_grid(pid, count=cnt)
+        cnt = [sum(cnt)]
         return dict(evaluations=cnt[0], distinct_nontrivial=cnt[0],
-                    rule="real elementwise leaf bijections (float64) x parameter sets (positive/negative/small/large scales, several max_val) x boundary-directed points (0, +-1, +-max_val, +-tanh(max_val), their float neighbours, 1e-8, 1e4); each (class, params, point) is distinct",
+                    rule="real RationalQuadraticSpline (trained-like perturbed raw parameters, intervals with and without 0) at every knot / interval end / float neighbour / bin midpoint / outside point, and real elementwise leaf bijections (float64) x parameter sets (positive/negative/small/large scales, several max_val) x boundary-directed points (0, +-1, +-max_val, +-tanh(max_val), their float neighbours, 1e-8, 1e4); each (class, params, point) is distinct",
                     samples=[dict(cls="LeakyTanh", params=dict(max_val=3.0), point=3.0)], failures=fails[:5], errors=[])
     return g
 
